@@ -1,4 +1,645 @@
 import A2lVerif.Model.Sort
-/-! helper lemmas for C14 / C15 -/
-namespace A2l.Srt
-end A2l.Srt
+/-! helper lemmas for C15 (`sort_new_items` growth law, writer order); in their own namespace `A2l.Srt.L15` so that
+    they cannot clash with the helpers of C14 -/
+namespace A2l.Srt.L15
+
+/-! ## the comparison functions -/
+
+/-- the common shape of `newLe` and `writerLe` -/
+def lexLe (ua la : Nat) (sa : String) (ub lb : Nat) (sb : String) : Bool :=
+  if ua = 0 ∧ ub ≠ 0 then false
+  else if ub = 0 ∧ ua ≠ 0 then true
+  else if ua = ub then
+    if la = lb then decide (sa ≤ sb) else decide (la ≤ lb)
+  else decide (ua ≤ ub)
+
+theorem newLe_eq (a b : Elem) : newLe a b = lexLe a.uid a.line a.name b.uid b.line b.name := rfl
+theorem writerLe_eq (a b : Elem) : writerLe a b = lexLe a.uid a.line a.tag b.uid b.line b.tag := rfl
+
+theorem lexLe_iff (ua la sa ub lb sb) : lexLe ua la sa ub lb sb = true ↔
+    ((ua ≠ 0 ∧ ub = 0) ∨
+      ((ua = 0 ↔ ub = 0) ∧ (ua < ub ∨ (ua = ub ∧ (la < lb ∨ (la = lb ∧ sa ≤ sb)))))) := by
+  unfold lexLe
+  by_cases h1 : ua = 0 <;> by_cases h2 : ub = 0 <;> by_cases h3 : ua = ub <;> by_cases h4 : la = lb <;>
+    simp [*] <;> omega
+
+theorem lexLe_total (ua la sa ub lb sb) : (lexLe ua la sa ub lb sb || lexLe ub lb sb ua la sa) = true := by
+  rw [Bool.or_eq_true, lexLe_iff, lexLe_iff]
+  rcases String.le_total sa sb with h | h
+  · by_cases h' : sb ≤ sa <;> simp only [h, h', and_true, and_false, or_false] <;> omega
+  · by_cases h' : sa ≤ sb <;> simp only [h, h', and_true, and_false, or_false] <;> omega
+
+theorem lexLe_trans (ua la sa ub lb sb uc lc sc)
+    (h1 : lexLe ua la sa ub lb sb = true) (h2 : lexLe ub lb sb uc lc sc = true) :
+    lexLe ua la sa uc lc sc = true := by
+  rw [lexLe_iff] at *
+  by_cases s1 : sa ≤ sb <;> by_cases s2 : sb ≤ sc
+  · have s3 := String.le_trans s1 s2
+    simp only [s1, s2, s3, and_true] at *
+    omega
+  all_goals
+    by_cases s3 : sa ≤ sc <;> simp only [s1, s2, s3, and_true, and_false, or_false] at * <;> omega
+
+theorem newLe_total (a b : Elem) : (newLe a b || newLe b a) = true := by
+  simp only [newLe_eq]; exact lexLe_total ..
+theorem newLe_trans (a b c : Elem) (h1 : newLe a b = true) (h2 : newLe b c = true) : newLe a c = true := by
+  simp only [newLe_eq] at *; exact lexLe_trans _ _ _ _ _ _ _ _ _ h1 h2
+theorem writerLe_total (a b : Elem) : (writerLe a b || writerLe b a) = true := by
+  simp only [writerLe_eq]; exact lexLe_total ..
+theorem writerLe_trans (a b c : Elem) (h1 : writerLe a b = true) (h2 : writerLe b c = true) :
+    writerLe a c = true := by
+  simp only [writerLe_eq] at *; exact lexLe_trans _ _ _ _ _ _ _ _ _ h1 h2
+
+theorem pairwise_mergeSort_newLe (es : List Elem) : (es.mergeSort newLe).Pairwise (fun a b => newLe a b = true) :=
+  List.pairwise_mergeSort newLe_trans newLe_total es
+
+theorem pairwise_mergeSort_writerLe (es : List Elem) :
+    (es.mergeSort writerLe).Pairwise (fun a b => writerLe a b = true) :=
+  List.pairwise_mergeSort writerLe_trans writerLe_total es
+
+/-- a new element is never sorted before a placed one -/
+theorem newLe_zero_left {a b : Elem} (ha : a.uid = 0) (h : newLe a b = true) : b.uid = 0 := by
+  rw [newLe_eq, lexLe_iff] at h; omega
+
+/-- placed elements are sorted by uid -/
+theorem newLe_placed {a b : Elem} (hb : b.uid ≠ 0) (h : newLe a b = true) : a.uid ≤ b.uid := by
+  rw [newLe_eq, lexLe_iff] at h; omega
+
+/-! ## `foldl max` -/
+
+theorem foldl_max_eq (a : Nat) (L : List Nat) : L.foldl max a = max a (L.foldl max 0) := by
+  induction L generalizing a with
+  | nil => simp
+  | cons x xs ih => simp only [List.foldl_cons]; rw [ih (max a x), ih (max 0 x)]; omega
+
+theorem le_foldl_max {x : Nat} {L : List Nat} (h : x ∈ L) : x ≤ L.foldl max 0 := by
+  induction L with
+  | nil => cases h
+  | cons y ys ih =>
+    simp only [List.foldl_cons]; rw [foldl_max_eq]
+    rcases List.mem_cons.1 h with rfl | h
+    · omega
+    · have := ih h; omega
+
+theorem foldl_max_perm {L L' : List Nat} (p : L.Perm L') : L.foldl max 0 = L'.foldl max 0 :=
+  p.foldl_eq' (by intros; omega) 0
+
+
+theorem renumber_cons_ok {last : Nat} {e : Elem} {es es' : List Elem}
+    (h : renumber last (e :: es) = .ok es') :
+    (e.uid ≠ 0 ∧ 2 * e.uid + 1 ≤ u32max ∧
+        ∃ es'', renumber (2 * e.uid + 1) es = .ok es'' ∧ es' = { e with uid := 2 * e.uid } :: es'') ∨
+    (e.uid = 0 ∧ ∃ es'', renumber last es = .ok es'' ∧ es' = { e with uid := last } :: es'') := by
+  rw [renumber] at h
+  by_cases hu : e.uid = 0
+  · right
+    refine ⟨hu, ?_⟩
+    simp only [hu, ne_eq, not_true_eq_false, ↓reduceIte] at h
+    cases hr : renumber last es with
+    | panic => simp [hr] at h
+    | ok es'' => simp [hr] at h; exact ⟨es'', rfl, h.symm⟩
+  · left
+    refine ⟨hu, ?_⟩
+    simp only [ne_eq, hu, not_false_eq_true, ↓reduceIte, dbl] at h
+    by_cases h2 : 2 * e.uid ≤ u32max
+    · simp only [h2, ↓reduceIte] at h
+      by_cases h3 : 2 * e.uid + 1 ≤ u32max
+      · simp only [h3, ↓reduceIte] at h
+        refine ⟨h3, ?_⟩
+        cases hr : renumber (2 * e.uid + 1) es with
+        | panic => simp [hr] at h
+        | ok es'' => simp [hr] at h; exact ⟨es'', rfl, h.symm⟩
+      · simp [h3] at h
+    · simp [h2] at h
+
+
+theorem renumber_keys (es : List Elem) : ∀ (last : Nat) (es' : List Elem), renumber last es = .ok es' →
+    es'.map Elem.key = es.map Elem.key := by
+  induction es with
+  | nil => intro last es' h; simp [renumber] at h; subst h; rfl
+  | cons e es ih =>
+    intro last es' h
+    rcases renumber_cons_ok h with ⟨_, _, es'', hr, rfl⟩ | ⟨_, es'', hr, rfl⟩
+    · simp [ih _ _ hr, Elem.key]
+    · simp [ih _ _ hr, Elem.key]
+
+theorem renumber_grows (es : List Elem) : ∀ (last : Nat) (es' : List Elem), renumber last es = .ok es' →
+    ∀ e ∈ es, e.uid ≠ 0 → 2 * e.uid + 1 ≤ u32max ∧
+      ∃ e' ∈ es', e'.key = e.key ∧ e'.line = e.line ∧ e'.uid = 2 * e.uid := by
+  induction es with
+  | nil => intro _ _ _ e he; cases he
+  | cons a es ih =>
+    intro last es' h e he hu
+    rcases renumber_cons_ok h with ⟨_, hb, es'', hr, rfl⟩ | ⟨ha, es'', hr, rfl⟩
+    · rcases List.mem_cons.1 he with rfl | he
+      · exact ⟨hb, _, List.mem_cons_self, rfl, rfl, rfl⟩
+      · obtain ⟨hb', e', he', hk⟩ := ih _ _ hr e he hu
+        exact ⟨hb', e', List.mem_cons_of_mem _ he', hk⟩
+    · rcases List.mem_cons.1 he with rfl | he
+      · exact absurd ha hu
+      · obtain ⟨hb', e', he', hk⟩ := ih _ _ hr e he hu
+        exact ⟨hb', e', List.mem_cons_of_mem _ he', hk⟩
+
+theorem renumber_ok (es : List Elem) (hb : ∀ e ∈ es, 2 * e.uid + 1 ≤ u32max) :
+    ∀ last, ∃ es', renumber last es = .ok es' := by
+  induction es with
+  | nil => intro _; exact ⟨[], rfl⟩
+  | cons a es ih =>
+    intro last
+    have ha := hb a List.mem_cons_self
+    have ih' := ih (fun e he => hb e (List.mem_cons_of_mem _ he))
+    rw [renumber]
+    by_cases hu : a.uid = 0
+    · obtain ⟨es', h⟩ := ih' last
+      simp [hu, h]
+    · obtain ⟨es', h⟩ := ih' (2 * a.uid + 1)
+      have h2 : 2 * a.uid ≤ u32max := by omega
+      simp [hu, dbl, h2, ha, h]
+
+/-- on a list sorted by `newLe`, every new element gets `2·(largest placed uid)+1`, or the incoming `last` if
+    there is no placed element -/
+theorem renumber_new (es : List Elem) : ∀ (last : Nat) (es' : List Elem),
+    es.Pairwise (fun a b => newLe a b = true) → renumber last es = .ok es' →
+    ∀ e' ∈ es', (e'.uid % 2 = 1 ∨ e'.uid = 0) →
+      e'.uid = (if (es.filter (·.uid ≠ 0)).isEmpty then last
+                else 2 * ((es.filter (·.uid ≠ 0)).map (·.uid)).foldl max 0 + 1) := by
+  induction es with
+  | nil => intro _ _ _ h e' he'; simp [renumber] at h; subst h; cases he'
+  | cons a es ih =>
+    intro last es' hs h e' he' hodd
+    rw [List.pairwise_cons] at hs
+    rcases renumber_cons_ok h with ⟨ha, _, es'', hr, rfl⟩ | ⟨ha, es'', hr, rfl⟩
+    · have hfil : (a :: es).filter (·.uid ≠ 0) = a :: es.filter (·.uid ≠ 0) := by
+        simp [ha]
+      rw [hfil]
+      simp only [List.isEmpty_cons, Bool.false_eq_true, ↓reduceIte, List.map_cons, List.foldl_cons]
+      rcases List.mem_cons.1 he' with rfl | he'
+      · simp at hodd; omega
+      · have := ih _ _ hs.2 hr e' he' hodd
+        rw [this, foldl_max_eq (max 0 a.uid)]
+        cases hf : es.filter (·.uid ≠ 0) with
+        | nil => simp
+        | cons b bs =>
+          have hb : b ∈ es.filter (·.uid ≠ 0) := by rw [hf]; exact List.mem_cons_self
+          rw [List.mem_filter] at hb
+          have hb0 : b.uid ≠ 0 := by simpa using hb.2
+          have h1 := newLe_placed hb0 (hs.1 b hb.1)
+          have h2 : b.uid ≤ ((b :: bs).map (·.uid)).foldl max 0 :=
+            le_foldl_max (List.mem_map.2 ⟨b, List.mem_cons_self, rfl⟩)
+          simp only [List.isEmpty_cons, Bool.false_eq_true, ↓reduceIte]
+          omega
+    · have hall : ∀ b ∈ es, b.uid = 0 := fun b hb => newLe_zero_left ha (hs.1 b hb)
+      have hfil : es.filter (·.uid ≠ 0) = [] := by
+        rw [List.filter_eq_nil_iff]; intro b hb; simp [hall b hb]
+      have hfil' : (a :: es).filter (·.uid ≠ 0) = [] := by
+        simpa [ha] using hall
+      rw [hfil']
+      simp only [List.isEmpty_nil, ↓reduceIte]
+      rcases List.mem_cons.1 he' with rfl | he'
+      · rfl
+      · have := ih _ _ hs.2 hr e' he' hodd
+        rw [this, hfil]; simp
+
+
+
+/-! ## one call on one section -/
+
+/-- one call doubles every placed uid of the list, and that doubling did not overflow -/
+def Grows (es es' : List Elem) : Prop :=
+  ∀ e ∈ es, e.uid ≠ 0 → 2 * e.uid ≤ u32max ∧ ∃ e' ∈ es', e'.key = e.key ∧ e'.uid = 2 * e.uid
+
+theorem sortObjectlistNew_grows {es es' : List Elem} (h : sortObjectlistNew es = .ok es') : Grows es es' := by
+  intro e he hu
+  obtain ⟨hb, e', he', hk, _, hu'⟩ := renumber_grows _ _ _ h e (List.mem_mergeSort.2 he) hu
+  exact ⟨by omega, e', he', hk, hu'⟩
+
+theorem sortObjectlistNew_ok (es : List Elem) (hb : ∀ e ∈ es, 2 * e.uid + 1 ≤ u32max) :
+    ∃ es', sortObjectlistNew es = .ok es' :=
+  renumber_ok _ (fun e he => hb e (List.mem_mergeSort.1 he)) 0
+
+theorem sortOptional_grows {es es' : List Elem} {n n' : Nat} (hl : es.length ≤ 1)
+    (h : sortOptional es n = .ok (es', n')) : Grows es es' ∧ es'.length = es.length := by
+  match es, hl with
+  | [], _ => simp [sortOptional] at h; obtain ⟨rfl, -⟩ := h; exact ⟨fun e he => (by cases he), rfl⟩
+  | [a], _ =>
+    rw [sortOptional] at h
+    by_cases hu : a.uid = 0
+    · simp only [hu, ↓reduceIte, Out.ok.injEq, Prod.mk.injEq] at h
+      rw [← h.1]
+      refine ⟨?_, rfl⟩
+      intro e he hne
+      rw [List.mem_singleton] at he; subst he; exact absurd hu hne
+    · simp only [hu, ↓reduceIte, dbl] at h
+      by_cases h2 : 2 * a.uid ≤ u32max
+      · simp only [h2, ↓reduceIte] at h
+        by_cases h3 : 2 * a.uid + 1 ≤ u32max
+        · simp only [h3, ↓reduceIte, Out.ok.injEq, Prod.mk.injEq] at h
+          rw [← h.1]
+          refine ⟨?_, rfl⟩
+          intro e he hne
+          rw [List.mem_singleton] at he; subst he
+          exact ⟨h2, _, List.mem_singleton.2 rfl, rfl, rfl⟩
+        · simp [h3] at h
+      · simp [h2] at h
+  | _ :: _ :: _, hl => simp at hl
+
+theorem sortOptional_ok (es : List Elem) (n : Nat) (hb : ∀ e ∈ es, 2 * e.uid + 1 ≤ u32max) :
+    ∃ r, sortOptional es n = .ok r := by
+  match es with
+  | [] => exact ⟨_, rfl⟩
+  | a :: rest =>
+    have ha := hb a List.mem_cons_self
+    rw [sortOptional]
+    by_cases hu : a.uid = 0
+    · simp [hu]
+    · have h2 : 2 * a.uid ≤ u32max := by omega
+      simp [hu, dbl, h2, ha]
+
+theorem doubleAll_grows (es : List Elem) : ∀ es', doubleAll es = .ok es' → Grows es es' := by
+  induction es with
+  | nil => intro _ _ e he; cases he
+  | cons a es ih =>
+    intro es' h e he hu
+    rw [doubleAll] at h
+    by_cases h2 : 2 * a.uid ≤ u32max
+    · cases hr : doubleAll es with
+      | panic => simp [dbl, h2, hr] at h
+      | ok es'' =>
+        simp [dbl, h2, hr] at h
+        subst h
+        rcases List.mem_cons.1 he with rfl | he
+        · exact ⟨h2, _, List.mem_cons_self, rfl, rfl⟩
+        · obtain ⟨hb, e', he', hk⟩ := ih _ hr e he hu
+          exact ⟨hb, e', List.mem_cons_of_mem _ he', hk⟩
+    · simp [dbl, h2] at h
+
+theorem doubleAll_ok (es : List Elem) (hb : ∀ e ∈ es, 2 * e.uid + 1 ≤ u32max) :
+    ∃ es', doubleAll es = .ok es' := by
+  induction es with
+  | nil => exact ⟨[], rfl⟩
+  | cons a es ih =>
+    have ha := hb a List.mem_cons_self
+    obtain ⟨es', h⟩ := ih (fun e he => hb e (List.mem_cons_of_mem _ he))
+    have h2 : 2 * a.uid ≤ u32max := by omega
+    rw [doubleAll]; simp [dbl, h2, h]
+
+/-- the body of the `foldr` in `sortKeepList` -/
+def keepF (maxid : Nat) (e : Elem) (acc : Out (List Elem)) : Out (List Elem) :=
+  match acc with
+  | .panic => .panic
+  | .ok rest =>
+    if e.uid ≠ 0 then
+      match dbl e.uid with | .panic => .panic | .ok u => .ok ({ e with uid := u } :: rest)
+    else
+      match dblInc maxid with | .panic => .panic | .ok u => .ok ({ e with uid := u } :: rest)
+
+theorem sortKeepList_eq (es : List Elem) :
+    sortKeepList es =
+      if es.foldl (fun acc e => max acc e.uid) 0 = 0 then .ok es
+      else es.foldr (keepF (es.foldl (fun acc e => max acc e.uid) 0)) (.ok []) := rfl
+
+theorem keepF_grows (M : Nat) (es : List Elem) : ∀ es', es.foldr (keepF M) (.ok []) = .ok es' → Grows es es' := by
+  induction es with
+  | nil => intro _ _ e he; cases he
+  | cons a es ih =>
+    intro es' h e he hu
+    rw [List.foldr_cons] at h
+    cases hr : es.foldr (keepF M) (.ok []) with
+    | panic => simp [hr, keepF] at h
+    | ok es'' =>
+      rw [hr] at h
+      have hrest : ∀ e ∈ es, e.uid ≠ 0 → 2 * e.uid ≤ u32max ∧ ∃ e' ∈ es', e'.key = e.key ∧ e'.uid = 2 * e.uid := by
+        intro e he hu
+        obtain ⟨hb, e', he', hk⟩ := ih _ hr e he hu
+        refine ⟨hb, e', ?_, hk⟩
+        simp only [keepF] at h
+        split at h
+        · split at h
+          · cases h
+          · cases h; exact List.mem_cons_of_mem _ he'
+        · split at h
+          · cases h
+          · cases h; exact List.mem_cons_of_mem _ he'
+      rcases List.mem_cons.1 he with rfl | he
+      · simp only [keepF, hu, ne_eq, not_false_eq_true, ↓reduceIte, dbl] at h
+        by_cases h2 : 2 * e.uid ≤ u32max
+        · simp only [h2, ↓reduceIte, Out.ok.injEq] at h
+          subst h
+          exact ⟨h2, _, List.mem_cons_self, rfl, rfl⟩
+        · simp [h2] at h
+      · exact hrest e he hu
+
+theorem keepF_ok (M : Nat) (hM : 2 * M + 1 ≤ u32max) (es : List Elem) (hb : ∀ e ∈ es, 2 * e.uid + 1 ≤ u32max) :
+    ∃ es', es.foldr (keepF M) (.ok []) = .ok es' := by
+  induction es with
+  | nil => exact ⟨[], rfl⟩
+  | cons a es ih =>
+    have ha := hb a List.mem_cons_self
+    obtain ⟨es', h⟩ := ih (fun e he => hb e (List.mem_cons_of_mem _ he))
+    have h2 : 2 * a.uid ≤ u32max := by omega
+    rw [List.foldr_cons, h]
+    by_cases hu : a.uid = 0
+    · simp [keepF, hu, dblInc, hM]
+    · simp [keepF, hu, dbl, h2]
+
+theorem foldl_maxuid_mem (es : List Elem) : ∀ a : Nat,
+    es.foldl (fun acc e => max acc e.uid) a = a ∨
+      ∃ e ∈ es, e.uid = es.foldl (fun acc e => max acc e.uid) a := by
+  induction es with
+  | nil => intro a; left; rfl
+  | cons x xs ih =>
+    intro a
+    rw [List.foldl_cons]
+    rcases ih (max a x.uid) with h | ⟨e, he, h⟩
+    · rw [h]
+      by_cases hx : x.uid ≤ a
+      · left; omega
+      · right; exact ⟨x, List.mem_cons_self, by omega⟩
+    · right; exact ⟨e, List.mem_cons_of_mem _ he, h⟩
+
+theorem sortKeepList_grows {es es' : List Elem} (h : sortKeepList es = .ok es') : Grows es es' := by
+  rw [sortKeepList_eq] at h
+  split at h
+  · rename_i h0
+    intro e he hu
+    exfalso
+    -- every uid is below the maximum, which is 0
+    have : ∀ (l : List Elem) (a : Nat), a ≤ l.foldl (fun acc e => max acc e.uid) a ∧
+        ∀ x ∈ l, x.uid ≤ l.foldl (fun acc e => max acc e.uid) a := by
+      intro l
+      induction l with
+      | nil => intro a; exact ⟨Nat.le_refl _, fun x hx => by cases hx⟩
+      | cons y ys ih =>
+        intro a
+        rw [List.foldl_cons]
+        obtain ⟨h1, h2⟩ := ih (max a y.uid)
+        refine ⟨by omega, fun x hx => ?_⟩
+        rcases List.mem_cons.1 hx with rfl | hx
+        · omega
+        · exact h2 x hx
+    have := (this es 0).2 e he
+    omega
+  · exact keepF_grows _ _ _ h
+
+theorem sortKeepList_ok (es : List Elem) (hb : ∀ e ∈ es, 2 * e.uid + 1 ≤ u32max) :
+    ∃ es', sortKeepList es = .ok es' := by
+  rw [sortKeepList_eq]
+  split
+  · exact ⟨_, rfl⟩
+  · rename_i h0
+    refine keepF_ok _ ?_ es hb
+    rcases foldl_maxuid_mem es 0 with h | ⟨e, he, h⟩
+    · exact absurd h h0
+    · rw [← h]; exact hb e he
+
+
+
+/-! ## one call on the module -/
+
+/-- the rules of the `Option<T>` sections -/
+def isSingle (r : NewRule) : Prop := r = .threaded ∨ r = .optionalZero
+
+theorem sniSections_cons_ok {next : Nat} {r : RSection} {rs out : List RSection}
+    (h : sniSections next (r :: rs) = .ok out) :
+    ∃ es next' rs', out = { r with sec := { r.sec with elems := es } } :: rs' ∧
+      sniSections next' rs = .ok rs' ∧
+      ((isSingle r.rule ∧ ∃ n n', sortOptional r.sec.elems n = .ok (es, n')) ∨
+       (¬ isSingle r.rule ∧ sortKeepList r.sec.elems = .ok es) ∨
+       (¬ isSingle r.rule ∧ sortObjectlistNew r.sec.elems = .ok es)) := by
+  rw [sniSections] at h
+  cases hrule : r.rule <;> simp only [hrule] at h
+  · cases h1 : sortOptional r.sec.elems next with
+    | panic => simp [h1] at h
+    | ok p =>
+      obtain ⟨es, n'⟩ := p
+      simp only [h1] at h
+      cases h2 : sniSections n' rs with
+      | panic => simp [h2] at h
+      | ok rs' =>
+        simp only [h2, Out.ok.injEq] at h
+        exact ⟨es, n', rs', h.symm, h2, .inl ⟨.inl rfl, _, _, h1⟩⟩
+  · cases h1 : sortKeepList r.sec.elems with
+    | panic => simp [h1] at h
+    | ok es =>
+      simp only [h1] at h
+      cases h2 : sniSections next rs with
+      | panic => simp [h2] at h
+      | ok rs' =>
+        simp only [h2, Out.ok.injEq] at h
+        exact ⟨es, next, rs', h.symm, h2, .inr (.inl ⟨by simp [isSingle], rfl⟩)⟩
+  · cases h1 : sortObjectlistNew r.sec.elems with
+    | panic => simp [h1] at h
+    | ok es =>
+      simp only [h1] at h
+      cases h2 : sniSections next rs with
+      | panic => simp [h2] at h
+      | ok rs' =>
+        simp only [h2, Out.ok.injEq] at h
+        exact ⟨es, next, rs', h.symm, h2, .inr (.inr ⟨by simp [isSingle], rfl⟩)⟩
+  · cases h1 : sortOptional r.sec.elems 0 with
+    | panic => simp [h1] at h
+    | ok p =>
+      obtain ⟨es, n'⟩ := p
+      simp only [h1] at h
+      cases h2 : sniSections next rs with
+      | panic => simp [h2] at h
+      | ok rs' =>
+        simp only [h2, Out.ok.injEq] at h
+        exact ⟨es, next, rs', h.symm, h2, .inl ⟨.inr rfl, _, _, h1⟩⟩
+
+theorem sniSections_step (rs : List RSection) : ∀ (next : Nat) (rs' : List RSection),
+    sniSections next rs = .ok rs' →
+    (∀ r ∈ rs, isSingle r.rule → r.sec.elems.length ≤ 1) →
+    (∀ r ∈ rs, ∀ e ∈ r.sec.elems, e.uid ≠ 0 → 2 * e.uid ≤ u32max ∧
+        ∃ r' ∈ rs', ∃ e' ∈ r'.sec.elems, e'.key = e.key ∧ e'.uid = 2 * e.uid) ∧
+    (∀ r' ∈ rs', isSingle r'.rule → r'.sec.elems.length ≤ 1) := by
+  induction rs with
+  | nil =>
+    intro next rs' h _
+    simp [sniSections] at h; subst h
+    exact ⟨fun r hr => (by cases hr), fun r hr => (by cases hr)⟩
+  | cons r rs ih =>
+    intro next rs' h hwf
+    obtain ⟨es, next', rs'', rfl, h2, hsec⟩ := sniSections_cons_ok h
+    obtain ⟨ih1, ih2⟩ := ih _ _ h2 (fun r hr => hwf r (List.mem_cons_of_mem _ hr))
+    have hg : Grows r.sec.elems es ∧ (isSingle r.rule → es.length ≤ 1) := by
+      rcases hsec with ⟨hs, n, n', ho⟩ | ⟨hs, hk⟩ | ⟨hs, hk⟩
+      · have hl := hwf r List.mem_cons_self hs
+        obtain ⟨g, hlen⟩ := sortOptional_grows hl ho
+        exact ⟨g, fun _ => by omega⟩
+      · exact ⟨sortKeepList_grows hk, fun h => absurd h hs⟩
+      · exact ⟨sortObjectlistNew_grows hk, fun h => absurd h hs⟩
+    constructor
+    · intro r0 hr0 e he hu
+      rcases List.mem_cons.1 hr0 with rfl | hr0
+      · obtain ⟨hb, e', he', hk⟩ := hg.1 e he hu
+        exact ⟨hb, _, List.mem_cons_self, e', he', hk⟩
+      · obtain ⟨hb, r', hr', e', he', hk⟩ := ih1 r0 hr0 e he hu
+        exact ⟨hb, r', List.mem_cons_of_mem _ hr', e', he', hk⟩
+    · intro r' hr' hs
+      rcases List.mem_cons.1 hr' with rfl | hr'
+      · exact hg.2 hs
+      · exact ih2 r' hr' hs
+
+theorem sniSections_ok (rs : List RSection) (hb : ∀ r ∈ rs, ∀ e ∈ r.sec.elems, 2 * e.uid + 1 ≤ u32max) :
+    ∀ next, ∃ rs', sniSections next rs = .ok rs' := by
+  induction rs with
+  | nil => intro _; exact ⟨[], rfl⟩
+  | cons r rs ih =>
+    intro next
+    have hr := hb r List.mem_cons_self
+    have ih' := ih (fun r hr => hb r (List.mem_cons_of_mem _ hr))
+    rw [sniSections]
+    cases hrule : r.rule <;> simp only
+    · obtain ⟨⟨es, n'⟩, h1⟩ := sortOptional_ok r.sec.elems next hr
+      obtain ⟨rs', h2⟩ := ih' n'
+      simp [h1, h2]
+    · obtain ⟨es, h1⟩ := sortKeepList_ok r.sec.elems hr
+      obtain ⟨rs', h2⟩ := ih' next
+      simp [h1, h2]
+    · obtain ⟨es, h1⟩ := sortObjectlistNew_ok r.sec.elems hr
+      obtain ⟨rs', h2⟩ := ih' next
+      simp [h1, h2]
+    · obtain ⟨⟨es, n'⟩, h1⟩ := sortOptional_ok r.sec.elems 0 hr
+      obtain ⟨rs', h2⟩ := ih' next
+      simp [h1, h2]
+
+theorem mem_all_iff (m : RModule) (e : Elem) :
+    e ∈ m.toModule.all ↔ (∃ r ∈ m.sections, e ∈ r.sec.elems) ∨ e ∈ m.comments := by
+  simp only [Module.all, RModule.toModule, List.mem_append, List.mem_flatMap, List.mem_map]
+  constructor
+  · rintro (⟨s, ⟨r, hr, rfl⟩, he⟩ | h)
+    · exact .inl ⟨r, hr, he⟩
+    · exact .inr h
+  · rintro (⟨r, hr, he⟩ | h)
+    · exact .inl ⟨_, ⟨r, hr, rfl⟩, he⟩
+    · exact .inr h
+
+theorem sortNewItems_ok_iff {m m' : RModule} (h : sortNewItems m = .ok m') :
+    sniSections 1 m.sections = .ok m'.sections ∧ doubleAll m.comments = .ok m'.comments := by
+  rw [sortNewItems] at h
+  cases h1 : sniSections 1 m.sections with
+  | panic => simp [h1] at h
+  | ok ss =>
+    cases h2 : doubleAll m.comments with
+    | panic => simp [h1, h2] at h
+    | ok cs => simp [h1, h2] at h; subst h; exact ⟨rfl, rfl⟩
+
+/-- **one call**: every placed uid is doubled (so the doubling fits into `u32`), and the single sections stay
+    single -/
+theorem sortNewItems_step {m m' : RModule} (h : sortNewItems m = .ok m')
+    (hwf : ∀ r ∈ m.sections, isSingle r.rule → r.sec.elems.length ≤ 1) :
+    (∀ e ∈ m.toModule.all, e.uid ≠ 0 → 2 * e.uid ≤ u32max ∧
+        ∃ e' ∈ m'.toModule.all, e'.key = e.key ∧ e'.uid = 2 * e.uid) ∧
+    (∀ r ∈ m'.sections, isSingle r.rule → r.sec.elems.length ≤ 1) := by
+  obtain ⟨h1, h2⟩ := sortNewItems_ok_iff h
+  obtain ⟨s1, s2⟩ := sniSections_step _ _ _ h1 hwf
+  refine ⟨?_, s2⟩
+  intro e he hu
+  rcases (mem_all_iff m e).1 he with ⟨r, hr, he⟩ | he
+  · obtain ⟨hb, r', hr', e', he', hk⟩ := s1 r hr e he hu
+    exact ⟨hb, e', (mem_all_iff m' e').2 (.inl ⟨r', hr', he'⟩), hk⟩
+  · obtain ⟨hb, e', he', hk⟩ := doubleAll_grows _ _ h2 e he hu
+    exact ⟨hb, e', (mem_all_iff m' e').2 (.inr he'), hk⟩
+
+theorem sortNewItems_ok (m : RModule) (hb : ∀ e ∈ m.toModule.all, 2 * e.uid + 1 ≤ u32max) :
+    ∃ m', sortNewItems m = .ok m' := by
+  obtain ⟨ss, h1⟩ := sniSections_ok m.sections
+    (fun r hr e he => hb e ((mem_all_iff m e).2 (.inl ⟨r, hr, he⟩))) 1
+  obtain ⟨cs, h2⟩ := doubleAll_ok m.comments (fun e he => hb e ((mem_all_iff m e).2 (.inr he)))
+  exact ⟨⟨ss, cs⟩, by simp [sortNewItems, h1, h2]⟩
+
+/-! ## k calls -/
+
+theorem iterate_step (k : Nat) : ∀ (m m' : RModule), iterate k m = .ok m' →
+    (∀ r ∈ m.sections, isSingle r.rule → r.sec.elems.length ≤ 1) →
+    ∀ e ∈ m.toModule.all, e.uid ≠ 0 →
+      (1 ≤ k → 2 ^ k * e.uid ≤ u32max) ∧ ∃ e' ∈ m'.toModule.all, e'.key = e.key ∧ e'.uid = 2 ^ k * e.uid := by
+  induction k with
+  | zero =>
+    intro m m' h _ e he _
+    simp [iterate] at h; subst h
+    exact ⟨fun h => by omega, e, he, rfl, by simp⟩
+  | succ k ih =>
+    intro m m' h hwf e he hu
+    rw [iterate] at h
+    cases h1 : sortNewItems m with
+    | panic => simp [h1] at h
+    | ok m1 =>
+      simp only [h1] at h
+      obtain ⟨s1, s2⟩ := sortNewItems_step h1 hwf
+      obtain ⟨hb, e1, he1, hk1, hu1⟩ := s1 e he hu
+      have hu1' : e1.uid ≠ 0 := by omega
+      obtain ⟨hb', e', he', hk', hu'⟩ := ih m1 m' h s2 e1 he1 hu1'
+      have hpow : 2 ^ (k + 1) * e.uid = 2 ^ k * e1.uid := by rw [hu1, Nat.pow_succ]; simp [Nat.mul_assoc]
+      refine ⟨fun _ => ?_, e', he', hk'.trans hk1, by rw [hu', hpow]⟩
+      rw [hpow]
+      by_cases hk : 1 ≤ k
+      · exact hb' hk
+      · have : k = 0 := by omega
+        subst this; simp; omega
+
+
+
+/-! ## the overflow witness -/
+
+/-- a named list with two placed elements of uids `u` and `2u` -/
+def wit (u : Nat) : RModule :=
+  { sections := [⟨.objectList, ⟨.byName, [⟨"MEASUREMENT", "a", u, 3, 0⟩, ⟨"MEASUREMENT", "b", 2 * u, 4, 1⟩]⟩⟩],
+    comments := [] }
+
+theorem wit_sorted (u : Nat) :
+    ([⟨"MEASUREMENT", "a", u, 3, 0⟩, ⟨"MEASUREMENT", "b", 2 * u, 4, 1⟩] : List Elem).mergeSort newLe =
+      [⟨"MEASUREMENT", "a", u, 3, 0⟩, ⟨"MEASUREMENT", "b", 2 * u, 4, 1⟩] := by
+  apply List.mergeSort_of_pairwise
+  simp only [List.pairwise_cons, List.mem_singleton, forall_eq, List.not_mem_nil, false_imp_iff, implies_true,
+    List.Pairwise.nil, and_true]
+  rw [newLe_eq, lexLe_iff]; simp only; omega
+
+theorem wit_step (u : Nat) (hu : u ≠ 0) (hb : 4 * u + 1 ≤ u32max) :
+    sortNewItems (wit u) = .ok (wit (2 * u)) := by
+  have h1 : 2 * u ≤ u32max := by omega
+  have h2 : 2 * u + 1 ≤ u32max := by omega
+  have h3 : 2 * (2 * u) ≤ u32max := by omega
+  have h4 : 2 * (2 * u) + 1 ≤ u32max := by omega
+  have h0 : 2 * u ≠ 0 := by omega
+  simp [h0, sortNewItems, wit, sniSections, sortObjectlistNew, wit_sorted u, renumber, dbl, doubleAll, hu, h1, h2, h3, h4]
+
+theorem wit_panic (u : Nat) (hu : u ≠ 0) (hb : 2 * u + 1 ≤ u32max) (hbig : u32max < 4 * u) :
+    sortNewItems (wit u) = .panic := by
+  have h1 : 2 * u ≤ u32max := by omega
+  have h3 : ¬ 2 * (2 * u) ≤ u32max := by omega
+  have h0 : 2 * u ≠ 0 := by omega
+  simp [h0, sortNewItems, wit, sniSections, sortObjectlistNew, wit_sorted u, renumber, dbl, doubleAll, hu, h1, hb, h3]
+
+theorem iterate_add (j k : Nat) : ∀ m : RModule,
+    iterate (j + k) m = match iterate j m with | .panic => .panic | .ok m' => iterate k m' := by
+  induction j with
+  | zero => intro m; simp [iterate]
+  | succ j ih =>
+    intro m
+    rw [Nat.add_right_comm, iterate, iterate]
+    cases sortNewItems m with
+    | panic => rfl
+    | ok m1 => exact ih m1
+
+theorem wit_iterate (k : Nat) : ∀ u : Nat, u ≠ 0 → 2 ^ (k + 1) * u + 1 ≤ u32max →
+    iterate k (wit u) = .ok (wit (2 ^ k * u)) := by
+  induction k with
+  | zero => intro u _ _; simp [iterate]
+  | succ k ih =>
+    intro u hu hb
+    have hp : 1 ≤ 2 ^ k := Nat.one_le_two_pow
+    have e1 : 2 ^ (k + 1 + 1) * u = 2 ^ (k + 1) * (2 * u) := by
+      rw [Nat.pow_succ 2 (k + 1), Nat.mul_assoc]
+    have e2 : 2 ^ (k + 1) * (2 * u) = 2 * (2 * (2 ^ k * u)) := by
+      rw [Nat.pow_succ]; ac_rfl
+    have e3 : u ≤ 2 ^ k * u := Nat.le_mul_of_pos_left u hp
+    rw [iterate, wit_step u hu (by omega)]
+    simp only
+    rw [ih (2 * u) (by omega) (by omega)]
+    congr 2
+    rw [Nat.pow_succ, Nat.mul_assoc]
+
+
+end A2l.Srt.L15
